@@ -70,7 +70,8 @@ func runLangCheck(c *Ctx) {
 	if c.On("C01") {
 		structuralPhase(c, d, &idx)
 	}
-	for _, t := range langTiers(c) {
+	tiers := langTiers(c)
+	for ti, t := range tiers {
 		g := ref.NewSpecGen(t.leaves)
 		argvs := ref.Argvs(t.toks, t.maxLen)
 		nspecs := 0
@@ -84,14 +85,20 @@ func runLangCheck(c *Ctx) {
 				if !c.Begin("lang", t.name, spec) {
 					continue
 				}
-				c.Count("C01:traces", int64(len(argvs)))
 				node, err := ref.ParseSpec(d, spec)
 				if err != nil {
 					panic(fmt.Sprintf("generator produced %q: %v", spec, err))
 				}
 				c.Count("specs", 1)
+				// tiers overlap: a pair already explored by an earlier tier is skipped, so that pairs stay distinct
+				cov := newCoverage(tiers[:ti], spec, n, t.builtin)
 				for _, argv := range argvs {
 					c.Beat()
+					if cov.covers(argv) {
+						c.Count("pairs_skipped_covered_by_earlier_tier", 1)
+						continue
+					}
+					c.Count("C01:traces", 1)
 					judgeLang(c, d, spec, node, argv, t.builtin, t.name)
 				}
 				// model traces: all words over the spec's own letters, longer than the argv bound
@@ -103,7 +110,7 @@ func runLangCheck(c *Ctx) {
 					alpha := specAlphabet(node, d)
 					if len(alpha) > 0 && len(alpha) <= 4 {
 						for _, argv := range ref.Argvs(alpha, k) {
-							if len(argv) <= t.maxLen {
+							if len(argv) <= t.maxLen || cov.covers(argv) {
 								continue
 							}
 							c.Beat()
@@ -391,4 +398,63 @@ func containerNames(d *ref.Decl) []string {
 		n = append(n, d.ContainerName(i))
 	}
 	return n
+}
+
+// coverage of a spec by earlier tiers: the (spec, argv) pairs an earlier tier already ran.
+type tierCoverage struct {
+	toks   []map[string]bool
+	maxLen []int
+}
+
+func specLeaves(spec string) []string {
+	return strings.FieldsFunc(strings.ReplaceAll(spec, "...", " "), func(r rune) bool { return strings.ContainsRune(" ()[]|", r) })
+}
+
+func newCoverage(earlier []langTier, spec string, size int, builtin bool) *tierCoverage {
+	cov := &tierCoverage{}
+	leaves := specLeaves(spec)
+	for _, e := range earlier {
+		if e.builtin != builtin || size > e.maxSize {
+			continue
+		}
+		ls := map[string]bool{}
+		for _, l := range e.leaves {
+			ls[l] = true
+		}
+		in := true
+		for _, l := range leaves {
+			if !ls[l] {
+				in = false
+			}
+		}
+		if !in {
+			continue
+		}
+		ts := map[string]bool{}
+		for _, t := range e.toks {
+			ts[t] = true
+		}
+		cov.toks = append(cov.toks, ts)
+		cov.maxLen = append(cov.maxLen, e.maxLen)
+	}
+	return cov
+}
+
+func (cov *tierCoverage) covers(argv []string) bool {
+	for i, ts := range cov.toks {
+		if len(argv) > cov.maxLen[i] {
+			continue
+		}
+		all := true
+		for _, a := range argv {
+			if !ts[a] {
+				all = false
+				break
+			}
+		}
+		if all {
+			return true
+		}
+	}
+	return false
 }
